@@ -77,9 +77,20 @@ def compile_with(lib, base_xml, sensors):
   return m
 
 
-def run_state(lib, m, seed, nsteps):
-  """The procedure that defines 'the same state' for the metamorphic isolation check."""
+def run_state(lib, m, seed, nsteps, mode='random'):
+  """The procedure that defines 'the same state' for the metamorphic isolation check.
+  mode 'settle' (touch family): start from qpos0 with a small random velocity and let the bodies settle."""
   d = lib.make_data(m)
+  if mode == 'settle':
+    rng = np.random.RandomState(seed)
+    if m.nv:
+      d.qvel[:] = rng.uniform(-0.05, 0.05, int(m.nv))
+    for _ in range(nsteps):
+      lib.mj_step(m, d)
+    if m.nsensordata:
+      d.sensordata[:] = SENT
+    lib.mj_forward(m, d)
+    return d
   rng = mg.apply_state(lib, m, d, seed)
   for _ in range(nsteps):
     lib.mj_step(m, d)
@@ -131,6 +142,7 @@ def obj_body(w, objtype, oid):
 def check_case(ck, lib, gm, seed, nsteps, stats):
   E = lib.enums
   info = gm.info
+  mode = info.get('state_mode', 'random')
   sensors = [dict(s) for s in info['sensors']]
   rng = np.random.RandomState(seed ^ 0x5bd1e995)
   # axis / quaternion sensors: the compiler refuses a cutoff attribute, but mjModel.sensor_cutoff is a plain field
@@ -150,7 +162,7 @@ def check_case(ck, lib, gm, seed, nsteps, stats):
   d = None
   for nst in ([nsteps, 0] if nsteps else [0]):
     try:
-      d = run_state(lib, m, seed, nst)
+      d = run_state(lib, m, seed, nst, mode)
     except mj.MjError as e:
       if 'ensor' in str(e):
         raise
@@ -220,6 +232,7 @@ def check_case(ck, lib, gm, seed, nsteps, stats):
   w = so.World(lib, m, d)
   nefc = int(d.nefc)
   case_nt = False
+  rayonly_here = 0
   for i in range(ns):
     s = sensors[i]
     kind = s['kind']
@@ -257,6 +270,9 @@ def check_case(ck, lib, gm, seed, nsteps, stats):
     stats['cov']['%s|%s%s' % (tag, level, ('(' + r.note + ')') if r.note else '')] += 1
     if r.mode == 'none':
       continue
+    if kind == 'touch' and getattr(r, 'n_rayonly', 0):
+      stats['touch_rayonly'] = stats.get('touch_rayonly', 0) + 1
+      rayonly_here += 1
     ok, msg, ratio = True, '', 0.0
     if r.mode in ('exact', 'tol'):
       want = so.apply_cutoff(r.want, cutoff if kind not in ('contact', 'fromto', 'normal') else 0.0, dt)
@@ -305,7 +321,7 @@ def check_case(ck, lib, gm, seed, nsteps, stats):
                                                                                int(m2.nsensordata)), bucket='layout')
     if not rest:
       continue
-    d2 = run_state(lib, m2, seed, nsteps)
+    d2 = run_state(lib, m2, seed, nsteps, mode)
     data2 = np.array(d2.sensordata, dtype=np.float64)
     for i in range(ns):
       if i == k:
@@ -326,6 +342,17 @@ def check_case(ck, lib, gm, seed, nsteps, stats):
   stats['samebody_excluded'] = stats.get('samebody_excluded', 0) + info.get('excluded_same_body_pairs', 0)
   if nefc > 0:
     stats['nefc>0'] += 1
+  if mode == 'settle':
+    # touch family: the non-triviality witness is a touch sensor with a contact whose point is OUTSIDE the zone while
+    # its normal ray hits it (re-projection clause)
+    case_nt = rayonly_here > 0
+    labels = ['touch-family', 'touch:ray-only-hit' if rayonly_here else 'touch:no-ray-only-hit']
+    ck.case(nontrivial=case_nt, key=(gm.xml, seed, nsteps),
+            sample=dict(family='touch', sensors=[s['xml'] for s in sensors], seed=seed, nsteps=nsteps, ncon=int(d.ncon),
+                        ray_only_sensors=rayonly_here,
+                        readings=[data[adr[i]:adr[i] + dim[i]].tolist() for i in range(ns)][:8]),
+            labels=labels)
+    return
   labels = ['nefc>0' if nefc else 'nefc=0', 'ncon>0' if int(d.ncon) else 'ncon=0', 'nsteps=%d' % nsteps]
   labels += sorted(set('type:' + s['kind'] for s in sensors))
   ck.case(nontrivial=case_nt, key=(gm.xml, seed, nsteps),
@@ -774,6 +801,10 @@ def main(ck):
     gm, seed, nsteps = case
     check_case(ck, lib, gm, seed, nsteps, stats)
   ck.run_hypothesis(test, strat, ck.budget(600, 10000), name='sensors')
+  # touch family: thin pads / dots / discs on contact surfaces (re-projection clause of the touch law)
+  ck.run_hypothesis(test, st.tuples(gs.touch_models(), mg.state_seed(), st.integers(5, 40)), ck.budget(150, 2500),
+                    name='touch-family')
+  ck.extra['touch_sensors_with_ray_only_hit'] = stats.get('touch_rayonly', 0)
   static_acc_probe(ck, lib, ck.budget(20, 300))
   delay_probe(ck, lib, ck.budget(40, 600))
   ekinetic_probe(ck, lib, ck.budget(30, 300))
